@@ -40,7 +40,7 @@ FAMILIES = [("single", 25), ("nested2", 15), ("core", 20), ("rich", 15), ("flat"
 def plan(tier):
     return {"cases": 5000 if tier == "quick" else 100000, "shards": 16, "case_timeout": 30, "shard_timeout": 3000,
             "min_nontrivial": 150,
-            "min_counters": {"events_logged": 20000, "prefix_checks": 5000, "abs_bound_checks": 1500,
+            "min_counters": {"events_logged": 20000, "prefix_checks": 5000, "abs_bound_checks": 1500, "reevaluation_checks": 500,
                              "build_checks": 3000, "pull_events": 5000}}
 
 
@@ -373,6 +373,28 @@ def run(spec, ctx):
                 C["abs_bound_checks"] += 1
                 if outer_pos is not None and n_pulled > outer_pos + 1:
                     problems.append(f"nested query pulled {n_pulled} outer elements for result {k} whose outer element is at position {outer_pos}")
+    # 4. history: a partially consumed evaluation is abandoned, then the same query object is evaluated again
+    if fam in ("single", "nested2") and not problems and total > 0 and known_key is None:
+        import random as _r
+        rr = _r.Random(len(full) * 31 + total)
+        k1, k2 = rr.randint(0, total), rr.randint(0, total)
+        b3, _ = build_logged(spec, lm)
+        it3 = b3.query.evaluate()
+        first = [tuple(label(v) for v in G.row_of(r, b3, spec)) for r in itertools.islice(it3, k1)]
+        if hasattr(it3, "close"):
+            it3.close()
+        mid = len(lm.LOG)
+        second = [tuple(label(v) for v in G.row_of(r, b3, spec)) for r in itertools.islice(b3.query.evaluate(), k2)]
+        C["reevaluation_checks"] += 1
+        if first != results[:k1] or second != results[:k2]:
+            C["reevaluation_result_differs"] += 1       # C03's business
+        else:
+            need = results_at[max(k1, k2) - 1] if max(k1, k2) > 0 else 0
+            pf, pp = pulls(full[:need]), pulls(list(lm.LOG))
+            for n in dom_names:
+                if pp[n] > pf[n] + 1:
+                    problems.append(f"re-evaluation after {k1} results: {pp[n]} elements of domain {n} pulled in total for "
+                                    f"{k1} then {k2} results; a single run needs {pf[n]} for {max(k1, k2)} results")
     if problems:
         return {"status": "fail", "kind": "laziness", "key": (None if unknown_seen else known_key),
                 "detail": "; ".join(problems[:4]) + " | " + G.skeleton(spec)}
